@@ -13,6 +13,13 @@ pub const NEAR_KEYWORDS: &[&str] = &[
     "CharSequences", "imports", "packages", "enums", "constant", "onewayx", "parcelables", "falsey", "bytes", "longer",
     "charm", "booleans", "floats", "shorts", "forx", "ifs", "classy", "newer", "thisx", "trys", "dox", "_in", "in_", "List_",
     "Map2", "String1", "IBinderX", "XIBinder", "iBinder", "__", "_1", "A", "z9",
+    // case variants of keywords / literals (identifiers, since the lexer is case-sensitive)
+    "TRUE", "FALSE", "True", "IN", "OUT", "INOUT", "Void", "VOID", "INT", "Int", "Interface", "INTERFACE", "ONEWAY", "OneWay", "CONST", "Const",
+    "Parcelable", "PARCELABLE", "LIST", "list", "string", "STRING", "charSequence", "Enum", "ENUM", "IMPORT", "Import", "Package", "PACKAGE", "Boolean",
+    "Byte", "null", "NULL", "Class", "For",
+    // names with a meaning in the AIDL / Java / Android world
+    "getInterfaceVersion", "getInterfaceHash", "getTransactionName", "asBinder", "toString", "equals", "hashCode", "describeContents", "writeToParcel",
+    "readFromParcel", "CREATOR", "Stub", "Proxy", "Default", "DESCRIPTOR", "VERSION", "HASH", "android", "os", "java", "lang", "Object",
 ];
 
 pub fn ident(rng: &mut Rng) -> String {
@@ -130,7 +137,20 @@ pub fn annotation(rng: &mut Rng) -> Ann {
         let n = rng.below(4);
         let mut v = Vec::new();
         for _ in 0..n {
-            let k = ident(rng);
+            let mut k = ident(rng);
+            if !v.is_empty() && rng.chance(1, 5) {
+                // the same parameter name again, or a case variant of it
+                let prev: &(String, Option<String>) = rng.pick(&v);
+                let prev = prev.0.clone();
+                k = match rng.below(3) {
+                    0 => prev,
+                    1 => prev.to_uppercase(),
+                    _ => prev.to_lowercase(),
+                };
+                if reflex::is_non_ident_word(&k) {
+                    k = format!("{k}_");
+                }
+            }
             let val = if rng.chance(2, 3) { Some(scalar_lit(rng)) } else { None };
             v.push((k, val));
         }
@@ -177,6 +197,27 @@ pub fn leaf_ty(rng: &mut Rng, customs: &[Vec<String>]) -> Ty {
     }
 }
 
+/// a chain nested `depth` levels (arrays / lists / map values) over a leaf
+pub fn deep_chain_ty(rng: &mut Rng, depth: usize, customs: &[Vec<String>]) -> Ty {
+    let mut t = leaf_ty(rng, customs);
+    for _ in 0..depth {
+        t = match rng.below(3) {
+            0 => Ty::Array(Box::new(t)),
+            1 => Ty::List(Some(Box::new(t))),
+            _ => Ty::Map(Some(Box::new((Ty::Str, t)))),
+        };
+    }
+    t
+}
+
+pub fn ty_cfg(rng: &mut Rng, cfg: &GenCfg, max_depth: usize) -> Ty {
+    if cfg.deep_types && rng.chance(1, 60) {
+        let d = rng.range(30, 64);
+        return deep_chain_ty(rng, d, &cfg.customs);
+    }
+    ty(rng, max_depth, &cfg.customs)
+}
+
 pub fn ty(rng: &mut Rng, max_depth: usize, customs: &[Vec<String>]) -> Ty {
     if max_depth == 0 || rng.chance(2, 5) {
         return leaf_ty(rng, customs);
@@ -203,11 +244,19 @@ pub struct GenCfg {
     pub max_declared: usize,
     /// custom type names to favour
     pub customs: Vec<Vec<String>>,
+    /// transact codes may overflow u32 (never for C02-style model comparisons)
+    pub allow_overflow_codes: bool,
+    /// occasionally a type nested 33-64 levels deep
+    pub deep_types: bool,
+    /// occasionally an item with 33-80 members / a file with 33-70 imports
+    pub big: bool,
+    /// method names sometimes repeat earlier ones
+    pub repeat_method_names: bool,
 }
 
 impl Default for GenCfg {
     fn default() -> Self {
-        GenCfg { max_members: 6, max_args: 4, max_type_depth: 4, ann_num: 1, ann_den: 4, kind: None, max_imports: 3, max_declared: 2, customs: vec![] }
+        GenCfg { max_members: 6, max_args: 4, max_type_depth: 4, ann_num: 1, ann_den: 4, kind: None, max_imports: 3, max_declared: 2, customs: vec![], allow_overflow_codes: false, deep_types: false, big: false, repeat_method_names: false }
     }
 }
 
@@ -215,7 +264,7 @@ pub fn arg(rng: &mut Rng, cfg: &GenCfg) -> Arg {
     Arg {
         dir: if rng.chance(1, 2) { Some(rng.pick(&["in", "out", "inout"]).to_string()) } else { None },
         anns: annotations(rng, cfg.ann_num, cfg.ann_den * 2),
-        ty: ty(rng, cfg.max_type_depth, &cfg.customs),
+        ty: ty_cfg(rng, cfg, cfg.max_type_depth),
         name: if rng.chance(3, 4) { Some(ident(rng)) } else { None },
         pre: Pre::default(),
     }
@@ -227,11 +276,19 @@ pub fn method(rng: &mut Rng, cfg: &GenCfg) -> Member {
     Member::Method {
         anns: annotations(rng, cfg.ann_num, cfg.ann_den),
         oneway: rng.chance(1, 4),
-        ret: ty(rng, cfg.max_type_depth, &cfg.customs),
+        ret: ty_cfg(rng, cfg, cfg.max_type_depth),
         name: ident(rng),
         args_trailing_comma: !args.is_empty() && rng.chance(1, 5),
         args,
-        code: if rng.chance(1, 3) { Some(integer_lit(rng)) } else { None },
+        code: if rng.chance(1, 3) {
+            if cfg.allow_overflow_codes && rng.chance(1, 8) {
+                Some(rng.pick_str(&["4294967296", "99999999999", "18446744073709551616", "004294967296"]).to_string())
+            } else {
+                Some(integer_lit(rng))
+            }
+        } else {
+            None
+        },
         pre: Pre::default(),
     }
 }
@@ -249,7 +306,7 @@ pub fn constant(rng: &mut Rng, cfg: &GenCfg) -> Member {
 pub fn field(rng: &mut Rng, cfg: &GenCfg) -> Member {
     Member::Field {
         anns: annotations(rng, cfg.ann_num, cfg.ann_den),
-        ty: ty(rng, cfg.max_type_depth, &cfg.customs),
+        ty: ty_cfg(rng, cfg, cfg.max_type_depth),
         name: ident(rng),
         value: if rng.chance(1, 3) { Some(value(rng, 0)) } else { None },
         pre: Pre::default(),
@@ -267,7 +324,7 @@ pub fn enum_elem(rng: &mut Rng, cfg: &GenCfg) -> Member {
 
 pub fn item(rng: &mut Rng, cfg: &GenCfg) -> Item {
     let kind = cfg.kind.unwrap_or_else(|| *rng.pick(&[ItemKind::Interface, ItemKind::Interface, ItemKind::Parcelable, ItemKind::Parcelable, ItemKind::Enum]));
-    let n = rng.below(cfg.max_members + 1);
+    let n = if cfg.big && rng.chance(1, 25) { rng.range(33, 80) } else { rng.below(cfg.max_members + 1) };
     let mut members = Vec::new();
     for _ in 0..n {
         members.push(match kind {
@@ -288,6 +345,17 @@ pub fn item(rng: &mut Rng, cfg: &GenCfg) -> Item {
             ItemKind::Enum => enum_elem(rng, cfg),
         });
     }
+    if cfg.repeat_method_names && kind == ItemKind::Interface && rng.chance(1, 3) {
+        let mut seen: Vec<String> = Vec::new();
+        for m in members.iter_mut() {
+            if let Member::Method { name, .. } = m {
+                if !seen.is_empty() && rng.chance(1, 3) {
+                    *name = rng.pick(&seen).clone();
+                }
+                seen.push(name.clone());
+            }
+        }
+    }
     Item {
         kind,
         anns: annotations(rng, cfg.ann_num, cfg.ann_den),
@@ -300,7 +368,7 @@ pub fn item(rng: &mut Rng, cfg: &GenCfg) -> Item {
 }
 
 pub fn doc(rng: &mut Rng, cfg: &GenCfg) -> Doc {
-    let ni = rng.below(cfg.max_imports + 1);
+    let ni = if cfg.big && rng.chance(1, 30) { rng.range(33, 70) } else { rng.below(cfg.max_imports + 1) };
     let nd = rng.below(cfg.max_declared + 1);
     Doc {
         package: qualified(rng, 1, 4),
